@@ -28,6 +28,50 @@ def check_traj(sc):
     return out
 
 
+def check_model_factors(sc):
+    """Cached factors as the *model* uses them: the grain-boundary energy is a matrix property handed to every precipitate's
+    barrier at setup(); after each (re)configuration the factors must be those of a fresh object with the current energies."""
+    from kawin.precipitation.parameters.Nucleation import NucleationBarrierParameters
+    import math
+    out = Out()
+    m, th = H.build_model(sc)
+    for k, e in enumerate(sc["gbe_seq"]):
+        if k > 0:
+            m.reset()
+        m.setGrainBoundaryEnergy(e)
+        try:
+            m.setup()
+        except ValueError as err:
+            # the configuration is admissible if fresh barrier objects accept it for every phase; a refusal then comes from a stale energy
+            for ph in sc["phases"]:
+                NucleationBarrierParameters(site=ph["site"], gamma=ph["gamma"], gbEnergy=e).areaFactor
+            out.fail("stale_factor", "setup() after setGrainBoundaryEnergy(%r) raised %s although fresh barrier objects accept site/gamma/gbEnergy of every phase" % (e, str(err)[:200]), factor="GBk", through="model")
+            return out
+        for p, ph in enumerate(sc["phases"]):
+            nuc = m.precipitateParameters[p].nucleation
+            fresh = NucleationBarrierParameters(site=ph["site"], gamma=ph["gamma"], gbEnergy=e)
+            for name in ("GBk", "areaFactor", "volumeFactor", "gbRemoval", "areaRemoval"):
+                a, b = getattr(nuc, name), getattr(fresh, name)
+                if a is None or not math.isclose(float(a), float(b), rel_tol=1e-12, abs_tol=1e-300):
+                    out.fail("stale_factor", "after setGrainBoundaryEnergy(%r) (%s) and setup(), phase %d on %s: %s = %r, a fresh object with gamma=%r gbEnergy=%r gives %r" % (e, "first configuration" if k == 0 else "configuration %d after reset()" % (k + 1), p, ph["site"], name, a, ph["gamma"], e, b), factor=name, through="model")
+                    return out
+            if e == 0 and not (math.isclose(float(nuc.areaFactor), 4 * math.pi, rel_tol=1e-12) and math.isclose(float(nuc.volumeFactor), 4 * math.pi / 3, rel_tol=1e-12)):
+                out.fail("not_spherical_at_k0", "grain-boundary energy 0 (documented: equivalent to bulk precipitation), phase %d on %s: area factor %r, volume factor %r" % (p, ph["site"], nuc.areaFactor, nuc.volumeFactor), through="model")
+                return out
+    out.label("gbe_zero" if 0.0 in sc["gbe_seq"] else "gbe_positive", "configurations_%d" % len(sc["gbe_seq"]))
+    out.nt(len(sc["gbe_seq"]) > 1 and any(ph["site"] in scen.KMAX for ph in sc["phases"]))
+    return out
+
+
+@st.composite
+def _model_factors_case(draw):
+    sc = draw(scen.toy_binary_scenario(cap=50, max_phases=2, allow_profile=False, undersat=False, sites=["grain boundaries", "grain edges", "grain corners", "grain boundaries", "bulk", "dislocations"]))
+    gbs = [p for p in sc["phases"] if p["site"] in scen.KMAX]
+    lim = min([2 * scen.KMAX[p["site"]] * p["gamma"] for p in gbs] or [0.6])
+    sc["gbe_seq"] = [draw(st.sampled_from([0.0, 1.0, 1.0])) * draw(st.floats(0.0, 0.95)) * lim for _ in range(draw(st.integers(1, 3)))]
+    return sc
+
+
 @st.composite
 def _heating(draw):
     multi = draw(st.integers(0, 3)) == 3
@@ -52,4 +96,7 @@ def clauses():
         Clause("trajectory", _heating, check_traj, quick=200, thorough=3000, shrink=False,
                rule="generator: toy binary/ternary scenario with a hold, a jump or ramp 40-400 K above the start temperature (through the solvus) and optionally a return; every recorded step with non-positive driving force must record nucleation rate 0; "
                     "non-trivial: the driving force turns non-positive after a step with positive nucleation rate"),
+        Clause("model_factors", _model_factors_case, check_model_factors, quick=300, thorough=6000,
+               rule="generator: toy binary model (1-2 phases, boundary-type sites in two of three phases) configured with 1-3 grain-boundary energies in turn (0 in one of three, else up to 0.95 of the tightest admissible ratio), reset() between, setup() after each; "
+                    "oracle: the five factors of every phase as the model holds them equal those of a freshly constructed barrier object with the current site, interfacial and grain-boundary energy, and are the spherical values at energy 0; non-trivial: more than one configuration with a boundary-type site"),
     ]
